@@ -24,6 +24,6 @@ CONSTANTS
   Defect_McpStickyRefs = FALSE
   Defect_McpRcLostAtSnapshot = FALSE
 VIEW View
-INVARIANTS LiveIsFold SnapshotsExact ImportRebuildsAllButNamespaces
+INVARIANTS LiveIsFold SnapshotsExact ImportRebuildsAll
 PROPERTIES RestartExact
 CHECK_DEADLOCK FALSE
